@@ -1,0 +1,12 @@
+//go:build verif
+
+package transactions
+
+// VerifKeys returns the keys of the pending transactions (verification hook, add-only).
+func (me *Dispatcher[S]) VerifKeys() []Key {
+	out := make([]Key, 0, len(me.txns))
+	for k := range me.txns {
+		out = append(out, k)
+	}
+	return out
+}
